@@ -375,3 +375,13 @@ Theorem C14_content_type_unknown_extension_refuted :
     assoc (s "png") tbl = Some (s "image/png") /\ ooxml_content_type (fun x => x) tbl target <> s "image/png".
 Proof. exists [(s "png", s "image/png")], (s "media/image1.dat"). split; [reflexivity | vm_compute; discriminate]. Qed.
 Print Assumptions C14_content_type_unknown_extension_refuted.
+
+(* with the proposed byte-sniffing fallback the refutation above disappears: the table decides for known extensions,
+   the image signature (oracle value) for the others; without a sniffed value it is the current code *)
+Theorem C14_content_type_bytes_fallback :
+  forall (lower : str -> str) (tbl : list (str * str)) (sn : option str) (pre ext : str),
+    existsb (N.eqb DOT) ext = false ->
+    ooxml_content_type_b lower tbl sn (pre ++ DOT :: ext)
+    = match assoc (lower ext) tbl with Some v => v | None => match sn with Some c => c | None => s "image/" ++ lower ext end end.
+Proof. exact ooxml_content_type_b_spec. Qed.
+Print Assumptions C14_content_type_bytes_fallback.
